@@ -143,10 +143,12 @@ struct Script {
 }
 
 fn build(sc: &Script, limited: bool) -> Runtime<App> {
-    let mut b = Builder::seeded(1)
-        .quiet()
-        .cqueue_options(sc.n, Duration::from_nanos(sc.t))
-        .start_time(st(sc.start));
+    let mut b = Builder::seeded(1).quiet().start_time(st(sc.start));
+    // without the calendar queue (harness_heap) the event set has no parameters; n and t are ignored
+    #[cfg(feature = "cqueue")]
+    {
+        b = b.cqueue_options(sc.n, Duration::from_nanos(sc.t));
+    }
     if limited {
         for c in &sc.calls {
             b = match c {
